@@ -1,3 +1,129 @@
-(* C06 — placeholder while the proofs are being built *)
-From Coq Require Import String List Bool.
-From LNML Require Import Model.Includes.
+(* C06 — Include resolution merges every included component once and always terminates.
+   Model: Model/Includes.v (rd = loaders.py after fixes/C06-include-cycles.patch; rd_old = before).
+   The file system fs is any finite map (a list), cwd any working directory, fuel-free statements. *)
+From Coq Require Import String List Bool ZArith Arith Relations.
+From LNML Require Import Model.Includes Proofs.IncludesP Proofs.IncludesP2 Proofs.IncludesP3.
+Import ListNotations.
+
+(* terminates for every include graph (self loops, cycles, diamonds ...), any already_included list:
+   |files| + 2 levels of recursion are never exceeded and more fuel never changes the result *)
+Theorem C06_terminates_file : forall fs cwd p al,
+  read_entry_file fs cwd (enough fs) p al <> OutOfFuel /\
+  forall k, enough fs <= k -> read_entry_file fs cwd k p al = read_entry_file fs cwd (enough fs) p al.
+Proof. exact read_entry_file_terminates. Qed.
+Print Assumptions C06_terminates_file.
+
+Theorem C06_terminates_string : forall fs cwd x base al,
+  read_entry_string fs cwd (enough fs) x base al <> OutOfFuel /\
+  forall k, enough fs <= k ->
+    read_entry_string fs cwd k x base al = read_entry_string fs cwd (enough fs) x base al.
+Proof. exact read_entry_string_terminates. Qed.
+Print Assumptions C06_terminates_string.
+
+(* the measure behind it: every call that recurses has strictly fewer unmarked files *)
+Theorem C06_measure : forall fs cwd k h5 loc al,
+  unmarked fs al + 2 <= k -> rd fs cwd k h5 loc al <> OutOfFuel.
+Proof. exact rd_no_oof. Qed.
+Print Assumptions C06_measure.
+
+(* union: a finished read has opened exactly the files reachable through the hrefs, each once, and its
+   components are the merge (add_all_to_document) of their contributions in load order; no includes left *)
+Theorem C06_union_file : forall fs cwd fuel p d al',
+  read_entry_file fs cwd fuel p [] = Done (d, al') ->
+  exists new,
+    al' = p :: new /\ NoDup al' /\
+    (forall q, In q al' <-> reach fs cwd p q) /\
+    d_comps d = merge_all (contrib fs p) (map (contrib fs) new) /\
+    d_incs d = [].
+Proof. exact read_entry_file_spec. Qed.
+Print Assumptions C06_union_file.
+
+Theorem C06_union_string : forall fs cwd fuel x base d al',
+  read_entry_string fs cwd fuel x base [] = Done (d, al') ->
+  let b := match base with Some b => b | None => cwd end in
+  NoDup al' /\
+  (forall q, In q al' <-> exists h, In h (x_incs x) /\ reach fs cwd (resolve fs cwd b h) q) /\
+  d_comps d = merge_all (x_comps x) (map (contrib fs) al') /\
+  d_incs d = [].
+Proof. exact read_entry_string_spec. Qed.
+Print Assumptions C06_union_string.
+
+(* once: what the merge keeps *)
+Theorem C06_result_from_reachable : forall fs cwd fuel p d al' c,
+  read_entry_file fs cwd fuel p [] = Done (d, al') ->
+  In c (d_comps d) -> exists q, reach fs cwd p q /\ In c (contrib fs q).
+Proof. exact result_from_reachable. Qed.
+Print Assumptions C06_result_from_reachable.
+
+Theorem C06_result_covers_reachable : forall fs cwd fuel p d al' q c,
+  read_entry_file fs cwd fuel p [] = Done (d, al') ->
+  reach fs cwd p q -> In c (contrib fs q) ->
+  In c (d_comps d) \/ keyed c (d_comps d) = true.
+Proof. exact result_covers_reachable. Qed.
+Print Assumptions C06_result_covers_reachable.
+
+Theorem C06_ids_once : forall fs cwd fuel p d al',
+  read_entry_file fs cwd fuel p [] = Done (d, al') ->
+  keys_unique (contrib fs p) -> keys_unique (d_comps d).
+Proof. exact result_ids_once. Qed.
+Print Assumptions C06_ids_once.
+
+Theorem C06_file_contributes_once : forall fs cwd fuel p d al' e,
+  read_entry_file fs cwd fuel p [] = Done (d, al') -> c_id e = NoIdField ->
+  NoDup al' /\ (forall q, In q al' <-> reach fs cwd p q) /\
+  count_occ comp_eq_dec (d_comps d) e = count_occ comp_eq_dec (concat (map (contrib fs) al')) e.
+Proof. exact result_idless_count. Qed.
+Print Assumptions C06_file_contributes_once.
+
+(* the merge itself: associative (so the nesting of the recursion does not matter) and member-list-wise *)
+Theorem C06_merge_assoc : forall x u t, add_all (add_all x u) t = add_all x (add_all u t).
+Proof. exact add_all_assoc. Qed.
+Print Assumptions C06_merge_assoc.
+
+Theorem C06_merge_by_member_list : forall s l t, proj l (add_all s t) = add_all (proj l s) (proj l t).
+Proof. exact proj_add_all. Qed.
+Print Assumptions C06_merge_by_member_list.
+
+(* same result from any working directory from which no (relative) href resolves *)
+Theorem C06_cwd_file : forall fs cwd cwd',
+  (forall h, In h (all_hrefs fs) -> cwd_free fs cwd cwd' h) ->
+  forall fuel p al, read_entry_file fs cwd fuel p al = read_entry_file fs cwd' fuel p al.
+Proof. exact read_entry_file_cwd. Qed.
+Print Assumptions C06_cwd_file.
+
+Theorem C06_cwd_string : forall fs cwd cwd' x,
+  (forall h, In h (all_hrefs fs) -> cwd_free fs cwd cwd' h) ->
+  (forall h, In h (x_incs x) -> cwd_free fs cwd cwd' h) ->
+  forall fuel b al,
+    read_entry_string fs cwd fuel x (Some b) al = read_entry_string fs cwd' fuel x (Some b) al.
+Proof. exact read_entry_string_cwd. Qed.
+Print Assumptions C06_cwd_string.
+
+(* before the patch: any XML file whose first include names the file itself, or two files naming each
+   other first, never returns (the real code: RecursionError) - for every amount of fuel *)
+Theorem C06_terminates_refuted_before_patch_self : forall fs cwd p x h rest s,
+  lookup p (fs_files fs) = Some (FXml x) -> entry_is_h5 p = false -> incl_kind p = IKXml ->
+  x_incs x = h :: rest -> resolve fs cwd (dirname p) h = p -> mem_path p (l_own s) = false ->
+  forall fuel, rd_old fs cwd fuel false false p s = OutOfFuel.
+Proof. exact old_self_include_diverges. Qed.
+Print Assumptions C06_terminates_refuted_before_patch_self.
+
+Theorem C06_terminates_refuted_before_patch : exists fs cwd p,
+  forall fuel, read_entry_file_old fs cwd fuel p {| l_own := []; l_glob := [] |} = OutOfFuel.
+Proof. exact (ex_intro _ fs_self (ex_intro _ [] (ex_intro _ ["a.nml"%string] old_self_witness))). Qed.
+Print Assumptions C06_terminates_refuted_before_patch.
+
+Theorem C06_terminates_refuted_before_patch_mutual : exists fs cwd p,
+  forall fuel, read_entry_file_old fs cwd fuel p {| l_own := []; l_glob := [] |} = OutOfFuel.
+Proof.
+  exact (ex_intro _ fs_mutual (ex_intro _ ["e"%string] (ex_intro _ ["d0"%string; "a.nml"%string] old_mutual_witness))).
+Qed.
+Print Assumptions C06_terminates_refuted_before_patch_mutual.
+
+(* the union theorems are not vacuous: when the entry file can be loaded and every include that can be
+   met names a file with a recognised extension and matching content, the read succeeds *)
+Theorem C06_total_file : forall fs cwd p al,
+  loads_ok fs false p -> safe fs cwd p ->
+  exists d al', forall k, enough fs <= k -> read_entry_file fs cwd k p al = Done (d, al').
+Proof. exact read_entry_file_total. Qed.
+Print Assumptions C06_total_file.
